@@ -59,12 +59,12 @@ func (b *backend) GetLedger(ctx context.Context, name string) (*systemstore.Ledg
 }
 
 type side struct {
-	ro     bool
-	router chi.Router
-	l      *fakeapi.Ledger
-	b      *backend
-	broken string // api.NewRouter panicked
-	routes map[string]bool
+	ro      bool
+	router  chi.Router
+	l       *fakeapi.Ledger
+	b       *backend
+	broken  string // api.NewRouter panicked
+	routes  map[string]bool
 	chiSaid int // set by the instrumented NotFound / MethodNotAllowed responders
 }
 
@@ -197,6 +197,7 @@ type runner struct {
 	ro, rw   *side
 	createdN int
 	created  *input
+	reached  map[string]bool // "METHOD pattern" reached by a well-formed request without the flag
 }
 
 // one request under one flag: oracle, then the Coq case
@@ -231,6 +232,9 @@ func (x *runner) single(in input) {
 			c := in
 			x.created = &c
 		}
+	}
+	if !in.ReadOnly && in.Req.WF && ob.Matched != "" {
+		x.reached[in.Req.Method+" "+ob.Matched] = true
 	}
 	// non-trivial: without the flag this request makes the backend record a write (the gate is what stops it)
 	nontrivial := false
@@ -438,7 +442,7 @@ func main() {
 		"router built with readOnly=false and by the one built with readOnly=true; non-trivial = without the flag the backend records a " +
 		"write for this request; distinct by the JSON of (flag, request)"
 	r.Sum.Samples = []any{} // never null in summary.json, also when the router cannot even be built
-	x := &runner{r: r}
+	x := &runner{r: r, reached: map[string]bool{}}
 	x.rw, x.ro = build(false), build(true)
 	for _, s := range []*side{x.rw, x.ro} {
 		if s.broken != "" {
@@ -542,6 +546,18 @@ func main() {
 		x.both(x.randomRequest(g, fulls, vocab))
 	}
 
+	var unreached []string
+	for _, k := range vx.SortedKeys(x.rw.routes) {
+		if !x.reached[k] {
+			unreached = append(unreached, k)
+		}
+	}
+	if r.Sum.Extra != nil {
+		r.Sum.Extra["registered_routes_reached_by_a_well_formed_request"] = fmt.Sprintf("%d of %d", len(x.rw.routes)-len(unreached), len(x.rw.routes))
+	}
+	if len(unreached) > 0 {
+		r.Sum.Notes = append(r.Sum.Notes, "registered routes no well-formed generated request arrived at: "+strings.Join(unreached, ", "))
+	}
 	if x.created != nil {
 		js, _ := json.Marshal(x.created)
 		r.Sum.Notes = append(r.Sum.Notes, fmt.Sprintf("not part of C19: %d requests made the router built with readOnly=true call backend.CreateLedger "+
